@@ -1470,3 +1470,24 @@ package zap
 //@ atomic zapcore.counter.resetAt props C09 C11
 //@ atomic zapcore.counter.counter props C09 C11
 //@ atomic zap.AtomicLevel.l props C09 C20
+
+// zap.Stack / StackSkip (C15, C03): the stack is taken exactly at the caller of Stack (StackSkip: skip
+// frames further out): StackSkip skips itself (+1), Stack skips itself and passes 1 for its own frame;
+// the text travels unchanged in a String field.
+//@ func zap.StackSkip
+//@   props C15 C03
+//@   flags nopanic
+//@   requires 0 <= skip && skip < (1 << 30) - 2
+//@   requires stacktrace._stackPool != nil
+//@   track TK = call internal/stacktrace.Take
+//@   modifies $user, comp(E:uintptr), comp(E:uint8), stacktrace.Formatter.nonEmpty, fields(buffer.Buffer), fields(stacktrace.Stack)
+//@   ensures #TK == 1 && TK.arg0[0] == skip + 1
+//@   ensures result.Key == key && result.Type == zapcore.StringType && result.String == TK.ret0[0] && result.Integer == 0 && result.Interface == nil
+
+//@ func zap.Stack
+//@   props C15 C03
+//@   flags nopanic
+//@   requires stacktrace._stackPool != nil
+//@   track SS = call zap.StackSkip
+//@   modifies $user, comp(E:uintptr), comp(E:uint8), stacktrace.Formatter.nonEmpty, fields(buffer.Buffer), fields(stacktrace.Stack)
+//@   ensures #SS == 1 && SS.arg0[0] == key && SS.arg1[0] == 1 && result == SS.ret0[0]
